@@ -4,9 +4,9 @@ from checks import ebpf as B
 from checks.interp_common import Case, parse_answer
 from checks import C02
 
-UNITS = ['Opcodes', 'Clir', 'ClMem']
+UNITS = ['Opcodes', 'Codec', 'Interp', 'Clir', 'ClMem', 'ClAlu', 'ClJmp', 'ClMisc']
 MODELS = ['theories/ClirSem.vo', 'gen/Clir.vo']
-PROOFS = ['theories/ClirProofs.v', 'theories/ClMemProofs.v']
+PROOFS = ['theories/ClirProofs.v', 'theories/ClMemProofs.v', 'theories/ClStep.v']
 
 HEADER = '''From Coq Require Import ZArith List Bool.
 From RbpfV Require Import MachInt ClirSem.
